@@ -514,6 +514,12 @@ func (a *Arith) scalarSortOrEmpty(t types.Type) Sort {
 // idx conversions: Go int value (sort of `int`) <-> index sort are identical in both modes.
 func (a *Arith) idxAdd(x, y Term) Term {
 	if a.mode == ModeBV {
+		if y.S == "(_ bv0 64)" {
+			return x
+		}
+		if x.S == "(_ bv0 64)" {
+			return y
+		}
 		return app(SBV(64), "bvadd", x, y)
 	}
 	if y.S == "0" {
@@ -526,6 +532,9 @@ func (a *Arith) idxAdd(x, y Term) Term {
 }
 func (a *Arith) idxSub(x, y Term) Term {
 	if a.mode == ModeBV {
+		if y.S == "(_ bv0 64)" {
+			return x
+		}
 		return app(SBV(64), "bvsub", x, y)
 	}
 	if y.S == "0" {
